@@ -1,5 +1,6 @@
 import Vet.Model.Wire
 import Vet.Model.Commands
+import Vet.Model.Report
 open Vet Vet.Wire
 
 structure DState where
@@ -190,6 +191,11 @@ def handle (st : DState) (kw : String) (toks : List Nat) : DState × String :=
         match run modeTable toks with
         | none => (st, "bad-case")
         | some mt => (st, exceptLine (getStoreUpdates w mt) updatesToks)
+      | "report" =>
+        (st, exceptLine (resolve w) (fun r =>
+          let enc (ls : List FailLine) : List Nat :=
+            ls.length :: ls.flatMap (fun l => [l.name, l.ver] ++ listToks l.missing)
+          [b2n r.hasErrors] ++ enc r.jsonFailures ++ enc r.humanFailures))
       | "resolve" =>
         (st, exceptLine (resolve w) (fun r =>
           conclusionToks r.conclusion ++ [r.results.length] ++ r.results.flatMap resultToks))
